@@ -24,6 +24,12 @@ def run(ctx, rep):
     rep.rule('D1.shape', 'the returned array has n_samples rows and two columns')
     rep.rule('D2.scoped', 'the sampler is under @random_state and refuses |tau| > 1 before drawing')
     fn = prog.method(BIV, 'sample', inherited=False)
+    for sub in prog.classes.values():
+        if sub.qualname != BIV and prog.cls(BIV) in sub.mro():
+            own = sub.lookup('sample')
+            if own is not None and own is not fn:
+                rep.undecided('D1.wiring', own, own.node.name, f'{sub.name} has its own sample(): the conditional-inverse wiring decided for Bivariate.sample does not cover it, '
+                              'and whether its algorithm draws from this copula is not decided', construct=f'{sub.name}.sample override')
     np_ = fn.params[1]
     draws = [s for s in walk_no_nested(fn.node) if isinstance(s, ast.Assign) and isinstance(s.targets[0], ast.Name)
              and isinstance(s.value, ast.Call) and (prog.resolve(fn.module, s.value.func) or '').startswith('numpy.random.')]
